@@ -59,8 +59,13 @@ def creation_sees_inherits(prog: Program, res: Results, rid: str) -> None:
                  "out, inherit clauses included: each creating store `S[key] = …` in the CLI set functions is dominated by the "
                  "KeyError edge of the mapping lookup `S[key]` (which answers for inherited names) or by an explicit scan of the "
                  "set's Inherit entries — a miss of _find_binding alone does not rule out `inherit key;`", floor=2)
-    for key in ("_set_value_in_attrset", "_resolve_npath_parent"):
-        f = prog.func(key)
+    fns = []
+    for key0 in ("_set_value_in_attrset", "_resolve_npath_parent"):
+        f0 = prog.func(key0)
+        fns.append(f0)
+        fns += list(f0.nested.values())
+    for f in fns:
+        key = f.key
         res.analysed_functions.add(key)
         cfg = CFG(f.node)
         value_param = next((p_ for p_ in f.params() if "value" in p_), None)
